@@ -16,6 +16,9 @@
                                                contained in base_root)
      driver/src/modules/needs.rs              (load_modules_for_program: the entry's name sets and the
                                                SymbolConflict check)
+     driver/src/api/repl.rs                   (run_with_vm: the loader's memo lives as long as the session: run_session)
+   Tables, guards and the order of checks that the source fixes are NOT hand-written here: they come
+   from Extracted/ModulesTables.v (tools/extractors/c19.py), regenerated from the Rust source on every run.
    Identifiers (path segments, definition names, aliases) are numbers; the harness prints
    identifier k as "n<k>".  A file is named by its path components below the entry's directory
    without the extension: [a; x] is a/x.aelys, [a; x; MODSEG] is a/x/mod.aelys.  Symlinks and the
